@@ -183,10 +183,32 @@ type Replica struct {
 	fsm *meta.VerifFSM
 }
 
-func newReplica(ptper int) *Replica {
+// the configuration switches the apply functions read (enumerated by the translator: config_reads); every replica of a
+// case runs under the same configuration, as the nodes of one cluster do
+type Conf struct {
+	PtPer   int  `json:"ptper"`
+	Expand  bool `json:"expand"`  // expand-shards-enable
+	NoAuto  bool `json:"noauto"`  // retention-autocreate off
+	NoInc   bool `json:"noinc"`   // use-inc-sync-data off
+	NoClean bool `json:"noclean"` // schema-clean-en off
+}
+
+func newReplicaC(cf Conf) *Replica {
 	c := config.NewMeta()
-	c.PtNumPerNode = uint32(ptper)
+	c.PtNumPerNode = uint32(cf.PtPer)
+	c.ExpandShardsEnable = cf.Expand
+	c.RetentionAutoCreate = !cf.NoAuto
+	c.UseIncSyncData = !cf.NoInc
+	c.SchemaCleanEn = !cf.NoClean
 	return &Replica{fsm: meta.VerifNewFSM(c)}
+}
+
+var curConf Conf
+
+func newReplica(ptper int) *Replica {
+	cf := curConf
+	cf.PtPer = ptper
+	return newReplicaC(cf)
 }
 
 // apply returns 0 (nil), 1 (error) or 2 (panic)
@@ -222,6 +244,7 @@ func classOf(p string) string {
 type Case struct {
 	Name    string       `json:"name"`
 	PtPer   int          `json:"ptper"`
+	Conf    Conf         `json:"conf"`
 	Cmds    []Cmd        `json:"cmds"`
 	Log     []string     `json:"log"` // base64 of the marshalled commands
 	SnapAt  int          `json:"snap_at"`
@@ -250,6 +273,7 @@ func persistRestore(cs *Case, snap raft.FSMSnapshot, atSnap any, report func(int
 }
 
 func runCase(cs *Case) {
+	curConf = cs.Conf
 	A, D := newReplica(cs.PtPer), newReplica(cs.PtPer)
 	var C *Replica
 	var snap raft.FSMSnapshot
@@ -613,6 +637,8 @@ func genCmd(r *gen.Rand, d *meta2.Data) Cmd {
 
 func genCase(r *gen.Rand, idx int) *Case {
 	cs := &Case{Name: fmt.Sprintf("gen-%d", idx), PtPer: r.Range(1, 2)}
+	cs.Conf = Conf{Expand: r.Chance(1, 2), NoAuto: r.Chance(1, 4), NoInc: r.Chance(1, 4), NoClean: r.Chance(1, 4)}
+	curConf = cs.Conf
 	// the generator consults a scratch replica to pick mostly-valid arguments
 	S := newReplica(cs.PtPer)
 	n := r.Range(12, 40)
@@ -644,12 +670,49 @@ func genCase(r *gen.Rand, idx int) *Case {
 	if r.Chance(1, 3) {
 		cs.Delay = r.Range(1, 6)
 	}
+	// node joins AFTER the restore (state that is not in the snapshot but steers apply shows up here), followed by
+	// shard-group creations that hand out ids
+	if r.Chance(2, 3) {
+		at := cs.SnapAt + cs.Delay + r.Intn(3)
+		if at > len(cs.Cmds) {
+			at = len(cs.Cmds)
+		}
+		h := r.Range(5, 9)
+		join := Cmd{K: "cnode", H: h, T: h}
+		if r.Chance(1, 4) {
+			join = Cmd{K: "csql", H: h}
+		}
+		extra := []Cmd{join}
+		for db := 1; db <= 3; db++ {
+			extra = append(extra, Cmd{K: "csg", DB: db, RP: 0, TS: Base + int64(r.Range(100, 200))*Hour})
+		}
+		var cmds []Cmd
+		var logs []string
+		for i := 0; i <= len(cs.Cmds); i++ {
+			if i == at {
+				for j := range extra {
+					b, _ := proto.Marshal(metacmd.Build(&extra[j]))
+					cmds = append(cmds, extra[j])
+					logs = append(logs, base64.StdEncoding.EncodeToString(b))
+				}
+			}
+			if i < len(cs.Cmds) {
+				cmds = append(cmds, cs.Cmds[i])
+				logs = append(logs, cs.Log[i])
+			}
+		}
+		cs.Cmds, cs.Log = cmds, logs
+	}
 	runCase(cs)
 	return cs
 }
 
 func scripted(name string, ptper, snapAt, delay int, cmds []Cmd) *Case {
-	cs := &Case{Name: name, PtPer: ptper, SnapAt: snapAt, Delay: delay, Cmds: cmds}
+	return scriptedC(name, Conf{}, ptper, snapAt, delay, cmds)
+}
+
+func scriptedC(name string, cf Conf, ptper, snapAt, delay int, cmds []Cmd) *Case {
+	cs := &Case{Name: name, Conf: cf, PtPer: ptper, SnapAt: snapAt, Delay: delay, Cmds: cmds}
 	for i := range cmds {
 		b, err := proto.Marshal(metacmd.Build(&cmds[i]))
 		if err != nil {
@@ -670,6 +733,13 @@ func corpus() []*Case {
 			{K: "cmst", DB: 1, RP: 1, M: 1},
 			{K: "cmst", DB: 1, RP: 1, M: 2},
 			{K: "csg", DB: 1, RP: 1, TS: Base},
+		}),
+		// expand-shards-enable: a store joining after a restore must still expand the existing groups
+		scriptedC("expand-on-join-after-restore", Conf{Expand: true}, 1, 5, 0, []Cmd{
+			{K: "cnode", H: 1, T: 1}, {K: "cdb", DB: 1, HasRP: true, RP: 1, D: i64(0), SGD: i64(Hour)},
+			{K: "cmst", DB: 1, RP: 1, M: 1}, {K: "csg", DB: 1, RP: 1, TS: Base}, {K: "csg", DB: 1, RP: 1, TS: Base + 3*Hour},
+			{K: "cnode", H: 2, T: 2}, {K: "csg", DB: 1, RP: 1, TS: Base + 6*Hour}, {K: "csql", H: 1}, {K: "cnode", H: 3, T: 3},
+			{K: "csg", DB: 1, RP: 1, TS: Base + 9*Hour},
 		}),
 		// groups bordering the Unix epoch: a stored 0 is the epoch, not the zero time
 		scripted("epoch-groups-through-snapshot", 1, 6, 0, []Cmd{
@@ -712,6 +782,14 @@ func corpus() []*Case {
 			{K: "cmst", DB: 1, RP: 1, M: 1}, {K: "cmst", DB: 2, RP: 1, M: 1}, {K: "cmst", DB: 1, RP: 2, M: 2}, {K: "cmst", DB: 3, RP: 2, M: 2},
 			{K: "csg", DB: 1, RP: 1, TS: Base}, {K: "csg", DB: 2, RP: 1, TS: Base}, {K: "csg", DB: 1, RP: 2, TS: Base}, {K: "csg", DB: 3, RP: 2, TS: Base},
 			{K: "cnode", H: 2, T: 2}, {K: "expand"}, {K: "csg", DB: 2, RP: 1, TS: Base + 3*Hour},
+		}),
+		// the partition view must be copied down to its entries: a status change applied while the snapshot is being
+		// written must not show up in it
+		scripted("delayed-persist-ptview", 2, 4, 2, []Cmd{
+			{K: "cnode", H: 1, T: 1}, {K: "cdb", DB: 1, HasRP: true, RP: 1, D: i64(0), SGD: i64(Hour)}, {K: "cptv", DB: 1},
+			{K: "cuser", S1: "u1", S2: "h"},
+			{K: "uptinfo", DB: 1, Pt: 0, COwner: 1, CStat: 3, Owner: 1, Status: 1}, {K: "ptver", DB: 1, Pt: 1},
+			{K: "cuser", S1: "u2", S2: "h"},
 		}),
 		scripted("delayed-persist-subscriptions", 1, 5, 2, []Cmd{
 			{K: "cnode", H: 1, T: 1}, {K: "cdb", DB: 1, HasRP: true, RP: 1, D: i64(0), SGD: i64(Hour)},
@@ -779,7 +857,7 @@ func main() {
 			in.PtPer = 1
 		}
 		if len(in.Log) == 0 {
-			c := scripted("replay", in.PtPer, in.SnapAt, in.Delay, in.Cmds)
+			c := scriptedC("replay", in.Conf, in.PtPer, in.SnapAt, in.Delay, in.Cmds)
 			_ = enc.Encode(c)
 			return
 		}
@@ -818,7 +896,7 @@ func main() {
 			if in.PtPer == 0 {
 				in.PtPer = 1
 			}
-			_ = enc.Encode(scripted("corpus:"+e.Name(), in.PtPer, in.SnapAt, in.Delay, in.Cmds))
+			_ = enc.Encode(scriptedC("corpus:"+e.Name(), in.Conf, in.PtPer, in.SnapAt, in.Delay, in.Cmds))
 		}
 	}
 	r := gen.FromEnv(15)
